@@ -26,7 +26,7 @@ RULE = ("(b) E2: every history of <=3 questions from an 11-letter alphabet (13 f
         "node/edge/CPD insertion order. non-trivial = distinct histories containing a virtual-evidence question followed "
         "by another question, plus distinct (api, model) purity cases")
 BOUNDS = {"quick": "(b) depth 3 (11+121+1331 histories on VE, 13+169+2197 on BP, 584 on the others) x 3 models; (a) 40 API calls x 4 models + 32 argument-purity calls x 3 models x 2 styles; (c) hash seeds {1,2,3} x 12 C01 groups + torch on 12 C01 / 8 C04 groups; all 3!x|E|!x3! insertion orders on 6 models",
-          "thorough": "(b) depth 4 on VE; (c) 60 groups per environment"}
+          "thorough": "(b) depth 4 on every engine; (c) 60 groups per environment"}
 EXHAUSTIVE = {"quick": True, "thorough": True}
 ASSUMPTIONS = ["order of model.cpds is not content", "model.fit / fit_update / inplace=True are documented to mutate and are not purity cases",
                "float32 back end compared with tolerance 1e-5"]
@@ -43,7 +43,7 @@ def groups(tier, seed):
     for mi in range(len(MODELS)):
         for eng in ("ve", "bp", "ci", "sampling"):
             for first in range({"bp": 13, "ve": 11}.get(eng, 8)):
-                out.append({"part": "hist", "model": mi, "engine": eng, "first": first, "depth": 4 if (tier == "thorough" and eng == "ve") else 3})
+                out.append({"part": "hist", "model": mi, "engine": eng, "first": first, "depth": 4 if tier == "thorough" else 3})
     for mi in range(len(MODELS)):
         out.append({"part": "purity", "model": mi})
     for mi in range(len(MODELS)):
